@@ -164,7 +164,7 @@ EVALUATORS = {"lrutrie_history": eval_history}
 SMALL = ["http://a.com", "http://a.com/", "http://a.com/x", "http://a.com/x/", "http://a.com/x/y", "http://a.com//x",
          "http://a.com/x?q=1", "http://a.com/x#f", "http://a.com/x?q=1#f", "http://b.a.com", "http://b.a.com/x",
          "https://a.com", "https://a.com/x", "http://a.com:8080", "http://a.com:8080/x", "http://com", "http://a.co.uk",
-         "http://b.a.co.uk/x", "http://co.uk", "http://a.com/xy", "http://a.com/x|y?q=1|2"]
+         "http://b.a.co.uk/x", "http://co.uk", "http://a.com/xy", "http://a.com/x|y?q=1|2", "http://a.com/x?q=1|"]
 SMALL_Q = SMALL + ["http://c.b.a.com/x/y/z?q=1#f", "http://a.com/x/y/z", "http://A.com/x", "http://www.a.com/x", "a.com/x",
                    "http://a.com/X", "http://x.co.uk", "http://a.com:8080/x/y", "https://b.a.com/x", "http://a.com/x/?q=1",
                    "http://a.com/x//y", "http://ab.com", "http://a.com/?q=1", "http://a.com/#f", "http://uk",
@@ -234,7 +234,7 @@ BIG_PATHS = ["", "/", "/x", "/x/", "/x/y", "/x//y", "/x/y/z", "/X", "/x/index.ht
              # dot segments, also climbing above the root; a literal '|' inside a stem (never followed by '<stem letter>:', which the
              # serialized format cannot tell from a separator)
              "/../x", "/x/../../x/y", "/./x/y/..", "/x|y", "/x/L|R/z"]
-BIG_TAILS = ["", "?q=1", "#f", "?q=1#f", "?b=2&a=1", "?a=1&b=2", "?utm_source=t&a=1", "#/route", "?family=L|R", "#tab|2"]
+BIG_TAILS = ["", "?q=1", "#f", "?q=1#f", "?b=2&a=1", "?a=1&b=2", "?utm_source=t&a=1", "#/route", "?family=L|R", "#tab|2", "?x=1|", "#f||"]
 KW = {
     "LRUTrie": [{}],
     "CanonicalizedLRUTrie": [{}, {"strip_fragment": True}, {"quoted": True}],
